@@ -3,6 +3,7 @@ the run: probe, deplete), with the battery's reference current for every depleti
 (solve() of a system rebuilt from the projected state, battery at the state the model returned last); a temporary
 wrapper of System._solve additionally records the solver calls between two callbacks (internal steps: phase and the
 battery Source's parameters at that moment); optional fault injection at the k-th probe / deplete / solver call."""
+from decwire import excname
 import copy
 import warnings
 
@@ -164,7 +165,7 @@ def run_batt(s, battery, cutoff, pfunc, dfunc, cid, fail_at=None, ref=True, max_
     except BaseException as e:
         if isinstance(e, (KeyboardInterrupt, SystemExit)):
             raise
-        case["outcome"], case["exc"] = "exc", type(e).__name__
+        case["outcome"], case["exc"] = "exc", excname(e)
     finally:
         if orig_solve is not None:
             System._solve = orig_solve
